@@ -103,6 +103,11 @@ MUTANTS of /repo tried in a scratch worktree (all reported VIOLATION with a conc
       changed the file system between reads of one tensor object); caught since the world-changing events were added:
       e.g. base W/da, loc f1: tofile ; da/f1 replaced by a symlink to W/outside/secret ; tofile -> canary bytes
       [correspondence + oracle, concrete shrunk replay].
+  seeded C10-r4m1 (base_dir setter stores normpath(value)): first seen only as row/trace mismatches; now caught with
+      input by (a) load() spellings with ".." after a symlinked directory (lsub -> da/sub: "lsub/../m.onnx" is
+      da/m.onnx, the collapsed base "." reads <root>/w.bin) and (b) tensor histories whose setbase goes through such
+      a path; the oracle's reference directory is computed from the base string GIVEN to the API, never read back
+      from the tensor.
   seeded C10-r2m2 (load: dirname(realpath(path))): first seen only as a load_base row mismatch (no failing input);
       with symlinked model files in the load tie: pub/m.onnx -> ../da/m.onnx reads da/w.bin instead of pub/w.bin
       [load oracle, concrete replay].
@@ -182,7 +187,7 @@ def gen_world(rng) -> list:
     taken.add("dz/f1")
     plan.append(["symlink", "dz/f1", "../outside/secret"])
     for lp, tgt in (("da/lsib", "../dab/f1"), ("da/lout", "../outside/secret"), ("da/ldirout", "../outside"),
-                    ("da/lin", "sub/f2"), ("da/loop1", "loop2"), ("da/loop2", "loop1"), ("lbase", "da"),
+                    ("da/lin", "sub/f2"), ("da/loop1", "loop2"), ("da/loop2", "loop1"), ("lbase", "da"), ("lsub", "da/sub"),
                     ("da/sub/labs", W + "/da/f1")):
         if rng.random() < 0.85:
             taken.add(lp)
@@ -538,6 +543,7 @@ def run_impl(case: dict, root: str, tracer: Tracer, snap0: "Snapshot | None" = N
     out = []
     snap = snap0 if snap0 is not None else Snapshot(root)
     cwd_rel = case["cwd"]
+    base_given = sub(case["base"])
     try:
         t = ir.ExternalTensor(sub(case["loc"]), case["off"], case["len"], ir.DataType.UINT8,
                               shape=ir.Shape([case["n"]]), name="t", base_dir=sub(case["base"]))
@@ -545,7 +551,7 @@ def run_impl(case: dict, root: str, tracer: Tracer, snap0: "Snapshot | None" = N
             tracer.events = []
             _AUDIT["paths"] = []
             # the property's reference point, taken when the call is made: which directory base_dir denotes NOW
-            b_now = os.fspath(t.base_dir)
+            b_now = base_given        # the string handed to the public API (constructor / setter), not read back
             cb_now = None
             if b_now:
                 cb_now = canon_dir(snap, b_now)
@@ -590,6 +596,7 @@ def run_impl(case: dict, root: str, tracer: Tracer, snap0: "Snapshot | None" = N
                     r = ["ok", b""]
                 elif k == "setbase":
                     t.base_dir = sub(op[1])
+                    base_given = sub(op[1])
                     r = ["ok", b""]
                 elif k == "release":
                     t.release()
@@ -816,6 +823,19 @@ def gen_cases(rng, root: str, count: int) -> list:
             if mc is not None:
                 cases.append(mc)
                 continue
+        if rng.random() < 0.07:
+            # ".." after a symlinked directory: the kernel's parent is not the lexical parent
+            # (lsub -> da/sub: lsub/.. is da ; da/ldirout -> ../outside: da/ldirout/.. is the world root)
+            b2 = rng.choice([W + "/lsub/..", "lsub/..", W + "/lsub/../", "./lsub/..", "lsub/.././", W + "/da/ldirout/..",
+                             "da/ldirout/../", W + "/lsub/../sub/.."])
+            loc2 = rng.choice(["outside/secret", "dab/f1", "f1", "sub/f2", "../outside/secret", "da/f1", "./f1"])
+            first = rng.choice(["", W + "/da", b2])
+            ops2 = ([["setbase", b2]] if first != b2 else []) + [[rng.choice(OPS)]]
+            if rng.random() < 0.4:
+                ops2 += [["release"], [rng.choice(OPS)]]
+            cases.append({"cwd": "", "base": first, "loc": loc2, "n": rng.choice([1, 3, 4]), "off": None, "len": None,
+                          "ops": ops2})
+            continue
         cwd, base = spell_base(rng, dirs, ltd, plain=rng.random() < 0.5)
         # where the base really is (relative to the world), for aiming locations
         brel = None
@@ -1195,6 +1215,13 @@ LINK_SPELLINGS = [("", W + "/pub/m.onnx", "pub"), ("pub", "m.onnx", "pub"), ("",
                   ("", "lpub/m.onnx", "pub"), ("", W + "/lpub/m2.onnx", "pub"), ("pub", "./m2.onnx", "pub"),
                   ("", "pub2/m.onnx", "pub2"), ("pub2", "m.onnx", "pub2"), ("pub2", "abs.onnx", "pub2"),
                   ("da", "../pub2/abs.onnx", "pub2"), ("", W + "//pub2/../pub/m.onnx", "pub")]
+# '..' after a symlinked directory in the model path: lsub -> da/sub, so lsub/../m.onnx IS da/m.onnx (the lexical
+# reading would be <root>/m.onnx); <root>/w.bin has its own content byte so a lexically collapsed base is visible
+LOAD_DOTDOT_PLAN = [["symlink", "lsub", "da/sub"], ["file", "w.bin", 13, 4], ["symlink", "pub/lsub2", "../da/sub"]]
+DOTDOT_SPELLINGS = [("", "lsub/../m.onnx", "da"), ("", W + "/lsub/../m.onnx", "da"), ("", "./lsub/../m.onnx", "da"),
+                    ("", "lsub/..//m.onnx", "da"), ("", "lsub/.././m.onnx", "da"), ("pub", "../lsub/../m.onnx", "da"),
+                    ("pub", "lsub2/../m.onnx", "da"), ("", W + "/pub/lsub2/../m.onnx", "da"),
+                    ("da", "sub/up/sub/../m.onnx", "da"), ("", "/" + W + "/lsub/../m.onnx", "da")]
 DIR_FID = {"da": 7, "pub": 11, "pub2": 12}
 LOAD_PLAN = [["dir", "da"], ["dir", "da/sub"], ["dir", "outside"], ["file", "outside/secret", 200, 8],
              ["file", "da/w.bin", 7, 4], ["symlink", "lbase", "da"], ["symlink", "da/sub/up", ".."]]
@@ -1204,7 +1231,7 @@ def load_tie(ck, idx: int):
     """Returns (frows for coq [(5, cwd, spelling, '', observed graph base)], failures [(case, bad)])."""
     root = os.path.join(ck.scratch, f"lw{idx}")
     shutil.rmtree(root, ignore_errors=True)
-    materialise(LOAD_PLAN + LOAD_LINK_PLAN, root)
+    materialise(LOAD_PLAN + LOAD_LINK_PLAN + LOAD_DOTDOT_PLAN, root)
     snap = Snapshot(root)
     failures, rows, n = [], [], 0
     for d, links in (("da", ["lbase", "da/sub/up"]), ("", []), ("da/sub", [])):
@@ -1219,15 +1246,16 @@ def load_tie(ck, idx: int):
         if d == "da":
             esc = "../outside/secret"          # escapes from da, pub and pub2 alike
             build_model_file(mp, inside, esc)
-            spellings += LINK_SPELLINGS
+            spellings += LINK_SPELLINGS + DOTDOT_SPELLINGS
         for cwd, sp, entry_dir in spellings:
             obs = run_load(root, d, cwd, sp, snap, entry_dir)
             n += 1
             ck.count()
-            ck.hist("load_spellings", ("symlinked-model-file:" if entry_dir else "") +
+            ck.hist("load_spellings", ("dotdot-after-symlinked-dir:" if (cwd, sp, entry_dir) in DOTDOT_SPELLINGS else
+                                       "symlinked-model-file:" if entry_dir else "") +
                     ("bare" if "/" not in sp else ("absolute" if sp.startswith(("/", W)) else "relative")))
             bad = oracle_load(obs, 200, DIR_FID.get(entry_dir or d) if d == "da" else None)
-            case = {"kind": "load", "plan": LOAD_PLAN + LOAD_LINK_PLAN, "dir": d, "cwd": cwd, "spelling": sp,
+            case = {"kind": "load", "plan": LOAD_PLAN + LOAD_LINK_PLAN + LOAD_DOTDOT_PLAN, "dir": d, "cwd": cwd, "spelling": sp,
                     "inside": inside, "escape": esc.replace(root, W), "entry_dir": entry_dir,
                     "inside_fid": DIR_FID.get(entry_dir or d) if d == "da" else None}
             if bad:
